@@ -4,9 +4,9 @@ package main
 // one scheduler goroutine.  All SPIs are harness fakes that double as observation points.
 
 import (
-	"encoding/json"
 	"context"
 	"crypto/sha256"
+	"encoding/json"
 	"errors"
 	"fmt"
 	"sort"
@@ -169,6 +169,9 @@ func (cl *cluster) committeeFor(h uint64, prevRef primitives.TimestampSeconds) [
 	if cl.prevRefGiven != nil { // a table driver says which previous block it hands to the call
 		want = *cl.prevRefGiven
 	}
+	if cl.heightGiven != nil && h != *cl.heightGiven {
+		cl.wrongHeightAsked++
+	}
 	if prevRef == want || len(cl.ids) == cl.nMembers {
 		return cl.committeeAt(h)
 	}
@@ -302,23 +305,25 @@ func (s *recStorage) StoreViewChange(m *interfaces.ViewChangeMessage) bool {
 // ---------------------------------------------------------------- cluster
 
 type cluster struct {
-	ring      *keyring
-	ids       []primitives.MemberId // all identities: members then outsiders
-	nMembers  int
-	weights   []uint64
-	byz       map[int]bool
-	rotate    bool     // committee order shifts by one per height
-	prevRefGiven    *primitives.TimestampSeconds
-	wrongEpochAsked int // committee requests with a reference time that is not the previous block's
-	nodes     []*cnode // index = member index; nil for Byzantine members
-	bodies    map[string]bool
-	bodiesMu  sync.Mutex
-	byHash    map[string]string
+	ring                   *keyring
+	ids                    []primitives.MemberId // all identities: members then outsiders
+	nMembers               int
+	weights                []uint64
+	byz                    map[int]bool
+	rotate                 bool // committee order shifts by one per height
+	prevRefGiven           *primitives.TimestampSeconds
+	heightGiven            *uint64  // a table driver says which block it hands to the call
+	wrongHeightAsked       int      // committee requests for another height than that block's
+	wrongEpochAsked        int      // committee requests with a reference time that is not the previous block's
+	nodes                  []*cnode // index = member index; nil for Byzantine members
+	bodies                 map[string]bool
+	bodiesMu               sync.Mutex
+	byHash                 map[string]string
 	sendFailEvery, sendSeq int // every k-th send of a correct node fails (0: never)
 	// membership change: from height exclFrom on (0: never) member exclIdx is no longer in the committee; its place (and weight)
 	// is taken by the identity after the adversary's outsider, a member nobody plays (silent)
-	exclIdx  int
-	exclFrom uint64
+	exclIdx   int
+	exclFrom  uint64
 	lenient   bool // consumer validators accept a proposal without a block
 	genesisOk bool
 }
